@@ -35,6 +35,14 @@ def gen_cases(tier, seed):
             cases.append({"family": "pool", "entry": name, "seed": s, "wrap": WRAPS[(i + s) % len(WRAPS)] if i else "none", "prefit": False, "weights": False,
                           "nq": 1, "nmax": 12 if tier == "quick" else 20, "rs": ["int", "instance"][(s >> 2) % 2],
                           "data": ["grid", "dups", "const", None][i % 4]})
+    # forced tie regimes: cold start / duplicated rows, for every candidate mode the strategy supports
+    for name, e in POOL.items():
+        for j, (cm, lab, dat) in enumerate([("feat", "cold", None), ("idx", "cold", "dups"), ("none", "half", "dups"), ("feat", "one", "grid")]):
+            if cm == "feat" and not e.feat:
+                continue
+            cases.append({"family": "pool", "entry": name, "seed": stable_hash(seed, "C06", "forced", name, j), "wrap": "none", "prefit": False,
+                          "weights": False, "nq": 1, "nmax": 10 if tier == "quick" else 18, "rs": "int", "data": dat, "cmode_forced": cm,
+                          "labels": lab})
     for i in range(reps * 3):
         cases.append({"family": "pool", "entry": "IntervalEstimationThreshold", "seed": stable_hash(seed, "C06", "iet", i), "wrap": "iet",
                       "prefit": False, "weights": False, "nq": 1, "nmax": 10, "rs": "int", "data": None})
@@ -114,7 +122,7 @@ def run_case(desc):
         if desc["wrap"] == "iet":
             call = multiannot.build_iet_call(desc, rng)
         else:
-            c, why = poolcase.build_in_domain(dict(desc, cmode="none" if desc["wrap"] == "saw" else None))
+            c, why = poolcase.build_in_domain(dict(desc, cmode="none" if desc["wrap"] == "saw" else desc.get("cmode_forced")))
             if why:
                 return {"status": "skip", "skip_reason": why}
             call = c05._build_call(c, desc, desc["wrap"], rng)
